@@ -41,7 +41,7 @@ def op_pool():
 def script_pool():
     """script-level only: default arguments, two-argument cookie, out-of-range codes"""
     return op_pool() + [["header", "x-a", "3"], ["redirect0", "/t"], ["nocontent0"], ["success0"], ["error0"],
-                        ["cookie2", "sid", "7"], ["badstatus", "status", 0], ["badstatus", "writeHeader", 1000],
+                        ["cookie2", "sid", "7"], ["cookieopt", "sid", "7"], ["cookieopt2", "t", "x9"], ["badstatus", "status", 0], ["badstatus", "writeHeader", 1000],
                         ["badstatus", "noContent", 99]]
 
 
@@ -49,13 +49,13 @@ def rand_op(rng, script=False):
     kinds = ["status", "status", "header", "header", "cookie", "write", "write", "html", "json",
              "redirect", "nocontent", "writeheader", "htmlwith", "formatted"]
     if script:
-        kinds += ["redirect0", "nocontent0", "success0", "error0", "cookie2", "badstatus"]
+        kinds += ["redirect0", "nocontent0", "success0", "error0", "cookie2", "cookieopt", "cookieopt2", "badstatus"]
     k = rng.choice(kinds)
     if k == "redirect0":
         return [k, rng.choice(URLS)]
     if k in ("nocontent0", "success0", "error0"):
         return [k]
-    if k == "cookie2":
+    if k in ("cookie2", "cookieopt", "cookieopt2"):
         return [k, rng.choice(["sid", "t"]), rng.choice(["7", "x9"])]
     if k == "badstatus":
         return [k, rng.choice(["status", "writeHeader", "noContent"]), rng.choice([0, 99, 1000, -1, 10000])]
@@ -112,6 +112,10 @@ def coq_op(o):
         return "OFormatted 500 %s" % coq_string(formatted_body(500, "error"))
     if k == "cookie2":
         return "OCookie %s" % coq_string(o[1] + "=" + o[2])
+    if k == "cookieopt":    # net/http Cookie.String(): name=value; Path; Domain; Expires; Max-Age; HttpOnly; Secure; SameSite
+        return "OCookie %s" % coq_string(o[1] + "=" + o[2] + "; Path=/x; Max-Age=60; HttpOnly")
+    if k == "cookieopt2":
+        return "OCookie %s" % coq_string(o[1] + "=" + o[2] + "; Path=/x; Secure")
     if k in ("badstatus", "formatfail"):
         return "ORefused"
     raise ValueError(k)
